@@ -273,6 +273,13 @@ theorem idlen_step (s : Sys) (e : Ev) (h : s.reg.id.length = 256) : (s.step e).1
   · rw [h1]; exact h
   · rw [h1, List.length_take, List.length_drop]; omega
 
+theorem startProbing_id (r : Reg) (n now : Nat) : (startProbing r n now).1.id = r.id := by
+  unfold startProbing
+  split
+  · rfl
+  · dsimp only
+    split <;> rfl
+
 /-! ## Induction over runs -/
 
 theorem run_ind (P : St → Prop) (hstep : ∀ x e, P x → P (x.step e).1) :
@@ -296,9 +303,8 @@ theorem reachable_good {x : St} (h : Reachable x) : Good x := by
     exact run_ind Good good_step tr _ ⟨inv_init id pid n, by simpa [St.init, Sys.init, Reg.new] using hl⟩
   · subst hx
     refine run_ind Good good_step tr _ ⟨inv_initProbing id pid n now, ?_⟩
-    simp only [St.initProbing, Sys.initProbing, Sys.init, Reg.new, startProbing]
-    repeat' split
-    all_goals simpa using hl
+    simp only [St.initProbing, Sys.initProbing, startProbing_id]
+    simpa [Sys.init, Reg.new] using hl
 
 theorem reachable_step {x : St} (h : Reachable x) (e : Ev) : Reachable (x.step e).1 := by
   have run_snoc : ∀ (tr : List Ev) (y : St), (y.run tr).step e = ((y.run (tr ++ [e])), ((y.run tr).step e).2) := by
@@ -309,5 +315,178 @@ theorem reachable_step {x : St} (h : Reachable x) (e : Ev) : Reachable (x.step e
   obtain ⟨id, pid, n, tr, hl, hx | ⟨now, hx⟩⟩ := h
   · exact ⟨id, pid, n, tr ++ [e], hl, .inl (by rw [hx, run_snoc])⟩
   · exact ⟨id, pid, n, tr ++ [e], hl, .inr ⟨now, by rw [hx, run_snoc]⟩⟩
+
+end Srtla.Reg
+
+/-! ## What an atomic event emits and how it moves the `connected` flags -/
+namespace Srtla.Reg
+open Srtla.Gen
+
+/-- `e` is the arrival of a packet of type `ty` on uplink `idx`. -/
+def Ev.IsPktOn (e : Ev) (idx ty : Nat) : Prop :=
+  match e with
+  | .pkt i _ buf => i = idx ∧ pktType buf = some ty
+  | _ => False
+
+/-- `e` is a registration-driver call (`reg_driver_pending_sends`). -/
+def Ev.IsDriver : Ev → Prop
+  | .driver _ => True
+  | _ => False
+
+/-- `e` is the housekeeping reconnect branch of uplink `idx`. -/
+def Ev.IsReconnectOf (e : Ev) (idx : Nat) : Prop :=
+  match e with
+  | .reconnect i _ => i = idx
+  | _ => False
+
+/-- Every packet an atomic event emits, with the path that produced it and the state it was
+produced from. -/
+theorem step_sends (s : Sys) (e : Ev) (o : Send) (ho : o ∈ (s.step e).2) :
+    (o.kind = .reg1Imm ∧ e.IsPktOn o.target 37393 ∧
+      s.reg.pending = none ∧ s.reg.active = 0 ∧ o.pkt = Codec.createReg1 s.reg.id) ∨
+    (o.kind = .reg1Drv ∧ e.IsDriver ∧ s.reg.pending = none ∧ s.reg.active = 0 ∧
+      s.reg.target = some o.target ∧ o.pkt = Codec.createReg1 s.reg.id) ∨
+    (o.kind = .reg1Hk ∧ e.IsReconnectOf o.target ∧ s.reg.pending = some o.target ∧
+      o.pkt = Codec.createReg1 s.reg.id) ∨
+    (o.kind = .reg2Hk ∧ e.IsReconnectOf o.target ∧ s.reg.pending = none ∧
+      o.pkt = Codec.createReg2 s.reg.id) ∨
+    (o.kind = .bcast ∧ e.IsDriver ∧ s.reg.broadcastPending = true ∧
+      o.pkt = Codec.createReg2 s.reg.id) := by
+  obtain ⟨r, c⟩ := s
+  cases e with
+  | pkt i now buf =>
+    rcases processRegistrationPacket_cases r i now buf with ⟨ht, hp⟩ | ⟨ht, hp⟩ | ⟨_, hp⟩ | ⟨_, hp⟩ | ⟨_, _, _, _, hp⟩
+    · left
+      simp only [Sys.step, stepPkt, hp] at ho
+      simp only [Ev.IsPktOn, ht]
+      grind [handleRegNgp, handleProbeResponse, reg1IfNgpImmediate, buildReg1For]
+    · simp [Sys.step, stepPkt, hp] at ho
+    · simp [Sys.step, stepPkt, hp] at ho
+    · simp [Sys.step, stepPkt, hp] at ho
+    · simp [Sys.step, stepPkt, hp] at ho
+  | clearTimeout now => simp [Sys.step] at ho
+  | probeCheck now =>
+    simp only [Sys.step] at ho
+    split at ho <;> simp at ho
+  | reconnect i now =>
+    simp only [Sys.step, stepReconnect, buildReg1For, buildReg2] at ho
+    simp only [Ev.IsReconnectOf, Ev.IsDriver, Ev.IsPktOn]
+    grind
+  | drop i => simp [Sys.step] at ho
+  | updateActive => simp [Sys.step] at ho
+  | driver now =>
+    simp only [Sys.step, stepDriver, regDriverPendingSends, driverReg1, driverBroadcast] at ho
+    simp only [Ev.IsReconnectOf, Ev.IsDriver, Ev.IsPktOn]
+    grind
+
+/-- A `connected` flag turns true only in the REG3 (0x9202 = 37378) arm, for the arrival uplink. -/
+theorem step_connected (s : Sys) (e : Ev) (k : Nat)
+    (h1 : (s.step e).1.connected[k]? = some true) (h0 : s.connected[k]? ≠ some true) :
+    e.IsPktOn k 37378 := by
+  obtain ⟨r, c⟩ := s
+  cases e with
+  | pkt i now buf =>
+    rcases processRegistrationPacket_cases r i now buf with ⟨_, hp⟩ | ⟨_, hp⟩ | ⟨ht, hp⟩ | ⟨_, hp⟩ | ⟨_, _, _, _, hp⟩
+    · simp only [Sys.step, stepPkt, hp] at h1
+      grind
+    · simp only [Sys.step, stepPkt, hp] at h1
+      grind
+    · simp only [Sys.step, stepPkt, hp] at h1
+      simp only [Ev.IsPktOn, ht]
+      grind
+    · simp only [Sys.step, stepPkt, hp] at h1
+      grind
+    · simp only [Sys.step, stepPkt, hp] at h1
+      grind
+  | clearTimeout now => simp only [Sys.step] at h1; grind
+  | probeCheck now => simp only [Sys.step] at h1; grind
+  | reconnect i now => simp only [Sys.step, stepReconnect] at h1; grind
+  | drop i => simp only [Sys.step] at h1; grind
+  | updateActive => simp only [Sys.step] at h1; grind
+  | driver now => simp only [Sys.step, stepDriver] at h1; grind
+
+theorem driverReg1_bp (r : Reg) (now : Nat) :
+    (driverReg1 r now).1.broadcastPending = r.broadcastPending := by
+  unfold driverReg1
+  grind
+
+/-- The driver broadcasts iff the flag is up, and lowers the flag. -/
+theorem driver_bcast (s : Sys) (now : Nat) :
+    ((∃ o ∈ (s.step (.driver now)).2, o.kind = .bcast) ↔ s.reg.broadcastPending = true) ∧
+    (s.step (.driver now)).1.reg.broadcastPending = false := by
+  obtain ⟨r, c⟩ := s
+  have hbp := driverReg1_bp r now
+  simp only [Sys.step, stepDriver, regDriverPendingSends, driverBroadcast]
+  cases hd : driverReg1 r now with
+  | mk r1 s1 =>
+    rw [hd] at hbp
+    simp only at hbp
+    simp only [hbp]
+    cases s1 with
+    | none => by_cases hb : r.broadcastPending = true <;> simp [hb, hbp]
+    | some ip => by_cases hb : r.broadcastPending = true <;> simp [hb, hbp]
+
+theorem bcast_count_le_one (s : Sys) (e : Ev) :
+    ((s.step e).2.filter (fun o => o.kind = .bcast)).length ≤ 1 := by
+  obtain ⟨r, c⟩ := s
+  cases e with
+  | pkt i now buf =>
+    rcases processRegistrationPacket_cases r i now buf with ⟨_, hp⟩ | ⟨_, hp⟩ | ⟨_, hp⟩ | ⟨_, hp⟩ | ⟨_, _, _, _, hp⟩
+    all_goals simp only [Sys.step, stepPkt, hp]
+    all_goals grind
+  | clearTimeout now => simp [Sys.step]
+  | probeCheck now => simp only [Sys.step]; split <;> simp
+  | reconnect i now => simp only [Sys.step, stepReconnect]; grind
+  | drop i => simp [Sys.step]
+  | updateActive => simp [Sys.step]
+  | driver now =>
+    simp only [Sys.step, stepDriver, regDriverPendingSends, driverReg1, driverBroadcast]
+    grind
+
+/-- REG_ERR (0x9210 = 37392) on any uplink. -/
+theorem step_regerr (s : Sys) (idx now : Nat) (buf : Bytes) (ht : pktType buf = some 37392) :
+    s.step (.pkt idx now buf) =
+      ({ reg := handleRegErr s.reg now, connected := s.connected.set idx false }, []) := by
+  rcases processRegistrationPacket_cases s.reg idx now buf with ⟨h, _⟩ | ⟨h, _⟩ | ⟨h, _⟩ | ⟨_, hp⟩ | ⟨_, _, _, h, _⟩
+  · rw [ht] at h; simp at h
+  · rw [ht] at h; simp at h
+  · rw [ht] at h; simp at h
+  · simp only [Sys.step, stepPkt, hp]
+  · exact absurd ht h
+
+/-- REG_NGP (0x9211 = 37393) with nothing pending, `active = 0` and not waiting for probe replies
+is answered at once with a REG1 on the same uplink; the attempt gets the 4000 ms deadline. -/
+theorem step_ngp_answered (s : Sys) (j now : Nat) (buf : Bytes) (ht : pktType buf = some 37393)
+    (hp : s.reg.pending = none) (ha : s.reg.active = 0) (hw : s.reg.probing ≠ .waiting) :
+    (s.step (.pkt j now buf)).2 = [{ kind := .reg1Imm, target := j, pkt := Codec.createReg1 s.reg.id }] ∧
+    (s.step (.pkt j now buf)).1.reg.pending = some j ∧
+    (s.step (.pkt j now buf)).1.reg.pendingTimeoutAt = now + 4000 := by
+  rcases processRegistrationPacket_cases s.reg j now buf with ⟨_, hq⟩ | ⟨h, _⟩ | ⟨h, _⟩ | ⟨h, _⟩ | ⟨h, _⟩
+  · obtain ⟨r, c⟩ := s
+    simp only at hp ha hw hq
+    simp only [Sys.step, stepPkt, hq]
+    grind [handleRegNgp, reg1IfNgpImmediate, buildReg1For, reg2WaitMs_eq]
+  · rw [ht] at h; simp at h
+  · rw [ht] at h; simp at h
+  · rw [ht] at h; simp at h
+  · exact absurd ht h
+
+theorem Sys.run_append (s : Sys) (a b : List Ev) :
+    s.run (a ++ b) = ((((s.run a).1).run b).1, (s.run a).2 ++ (((s.run a).1).run b).2) := by
+  induction a generalizing s with
+  | nil => simp [Sys.run]
+  | cons e es ih => simp [Sys.run, ih]
+
+/-- Ghost bookkeeping of emissions never touches `adopted`. -/
+theorem foldl_note_adopted (now : Nat) (outs : List Send) (g : Ghost) :
+    (outs.foldl (Ghost.note now) g).adopted = g.adopted := by
+  induction outs generalizing g with
+  | nil => rfl
+  | cons o os ih =>
+    simp only [List.foldl_cons, ih]
+    unfold Ghost.note
+    split
+    · rfl
+    · split <;> rfl
 
 end Srtla.Reg
